@@ -1341,12 +1341,12 @@ def trinterp(start, end, s=None):
 
         if start is None:
             #	TRINTERP(T, s)
-            q0 = base.r2q(base.t2r(end))
+            q0 = base.r2q(end)
             qr = base.slerp(base.eye(), q0, s)
         else:
             #	TRINTERP(T0, T1, s)
-            q0 = base.r2q(base.t2r(start))
-            q1 = base.r2q(base.t2r(end))
+            q0 = base.r2q(start)
+            q1 = base.r2q(end)
             qr = base.slerp(q0, q1, s)
 
         return base.q2r(qr)
